@@ -439,3 +439,55 @@ Proof.
   destruct (C08_Model.get_matcher e2 g1 f2 u2) as [[r2 g2] o2] eqn:H2. cbn.
   exact (proj1 (htpasswd_lock_released _ _ _ _ _ _ _ L1 H2)).
 Qed.
+
+(* ---- whole files of several sites: the oracle instance ---- *)
+Lemma run_blocks_sites (l : list N) : forall (pre : list N) (s : N),
+  run_blocks (oracle_setup_site (pre ++ l)) [100%N] (map site_block l) (length pre) s =
+  match find (fun c => negb (c =? 0)%N) l with
+  | Some c => Stop c
+  | None => Cont s
+  end.
+Proof.
+  induction l as [|a l IH]; intros pre s; [reflexivity|].
+  cbn [map run_blocks find]. unfold run_block.
+  change (tokens_of (snd (site_block a)) [100%N]) with (Some [0%N]).
+  change (fst (site_block a)) with [@nil N].
+  cbn [run_keys]. unfold oracle_setup_site at 1.
+  rewrite nth_error_app2 by apply Nat.le_refl. rewrite Nat.sub_diag. cbn [nth_error].
+  destruct a as [|p]; cbn [N.eqb negb].
+  - replace (pre ++ 0%N :: l) with ((pre ++ [0%N]) ++ l) by (rewrite <- app_assoc; reflexivity).
+    replace (S (length pre)) with (length (pre ++ [0%N])) by (rewrite app_length; cbn; apply Nat.add_1_r).
+    apply IH.
+  - reflexivity.
+Qed.
+
+Lemma predict_sites_first_rejected cbs persite : predict_sites cbs persite = first_rejected persite.
+Proof.
+  unfold predict_sites, first_rejected. cbn [execute]. unfold run_dir.
+  pose proof (run_blocks_sites persite [] 0%N) as H. cbn [app length] in H. rewrite H.
+  destruct (find _ persite); [reflexivity|]. destruct cbs; reflexivity.
+Qed.
+
+Lemma predict_sites_mode_independent persite : predict_sites false persite = predict_sites true persite.
+Proof. rewrite !predict_sites_first_rejected. reflexivity. Qed.
+
+Lemma predict_sites_accepted_iff cbs persite :
+  predict_sites cbs persite = 0%N <-> Forall (fun c => c = 0%N) persite.
+Proof.
+  rewrite predict_sites_first_rejected. unfold first_rejected.
+  induction persite as [|a l IH]; cbn [find].
+  - split; [constructor|reflexivity].
+  - destruct a as [|p]; cbn [N.eqb negb].
+    + rewrite IH. split; [intro H; constructor; [reflexivity|exact H]|intro H; inversion H; assumption].
+    + split; [discriminate|intro H; inversion H; discriminate].
+Qed.
+
+(* the same line in effect in every site (written out or through a shared snippet): the file is accepted in either
+   mode exactly when the line is accepted in a site of its own - being in effect n times changes nothing *)
+Lemma predict_sites_same_line cbs (c : N) (n : nat) :
+  predict_sites cbs (repeat c (S n)) = c.
+Proof.
+  rewrite predict_sites_first_rejected. unfold first_rejected. cbn [repeat find].
+  destruct c as [|p]; cbn [N.eqb negb]; [|reflexivity].
+  induction n as [|n IH]; [reflexivity|exact IH].
+Qed.
